@@ -485,6 +485,9 @@ def module_consts(forest, modname, _stack=()):
             for a in st.names:
                 if a.name == 're':
                     env[a.asname or 're'] = _ReStub
+                elif a.name == 'sys':
+                    import sys as _sys
+                    env[a.asname or 'sys'] = Namespace('sys', {'maxsize': _sys.maxsize})
                 elif a.name == 'segno':
                     pass
         elif isinstance(st, ast.ImportFrom):
